@@ -736,7 +736,8 @@ func runC12(cfg Config, args []string) int {
 		Assume: []string{"only the residue categories the property names are generated: older output, truncation at any byte (also with zero-filled tail / block-aligned cut), syntactically broken Go of the same package",
 			"stderr is not compared (not in the statement)"},
 		Extra:    map[string]any{"components_real": componentsReal, "components_simulated": componentsSim, "seam": env.Seam, "enumerated_truncation_cases": len(enum), "crash_recovery_template_cases": len(rec), "edit_template_cases": len(edits), "history_cases": nHist, "simulated_time": "not applicable: convergen reads no clock"},
-		Required: []string{"n:compared_runs_with_something_at_output", "n:crashes_landed_in_write"},
+		Required: []string{"n:compared_runs_with_something_at_output"},
+		Desired:  []string{"n:crashes_landed_in_write", "n:failed_writes"},
 	}
 	rep := RunBatch(b, start)
 	rep.Stats.Merge(pre)
